@@ -1,11 +1,19 @@
 (* C02 evaluation glue: the harness ships (history, dump) where dump is the
    byte encoding (Base/Ops.v enc_obs) of what the real table showed after
    every op of the history. *)
-From Tab Require Export Run.Glue Model.Core Spec.History.
+From Tab Require Export Run.Glue Model.Core Spec.History Model.CoreSegs Spec.HistorySegs.
 
-(* A case is (history, every, dump): every = true when the table was dumped
-   after every op, false when only after the last one (long histories).
+(* A case is (history, schedule, dump).  The schedule says when the table was
+   dumped: after every op; only after the last one (long histories); or after
+   every SEGMENT of the given lengths - a segment is one call made by the
+   program together with the building calls which its add-time callbacks made
+   from inside it (Spec/HistorySegs.v).
    Histories arrive run-length compressed: *)
+Inductive sched := Every | Last | After (ns : list nat).
+Definition spec_dump_at (s : sched) (h : list (op N)) : list N :=
+  match s with Every => spec_dump h | Last => spec_dump_last h | After ns => spec_dump_segs h ns end.
+Definition model_dump_at (s : sched) (h : list (op N)) : list N :=
+  match s with Every => model_dump h | Last => model_dump_last h | After ns => model_dump_segs h ns end.
 Definition adds (ref : rref) (xs : list N) : list (op N) := map (RowAdd ref) xs.    (* a burst of Row.Add on one row *)
 Definition times (n : nat) (seg : list (op N)) : list (op N) := concat (repeat seg n).
 
@@ -13,21 +21,21 @@ Definition times (n : nat) (seg : list (op N)) : list (op N) := concat (repeat s
    what the history spec expects (counts, order, locations, CellAt over the
    bounding box +-1, Column handles), recomputed from the history without the
    model *)
-Definition C02_ok (h : list (op N)) (every : bool) (o : res (list N)) : bool :=
+Definition C02_ok (h : list (op N)) (every : sched) (o : res (list N)) : bool :=
   match o with
-  | Ok d => bytes_eqb (if every then spec_dump h else spec_dump_last h) d
+  | Ok d => bytes_eqb (spec_dump_at every h) d
   | _ => false                       (* a building or observing call panicked *)
   end.
 
-Definition C02_case1 (c : list (op N) * bool * res (list N)) : N :=
+Definition C02_case1 (c : list (op N) * sched * res (list N)) : N :=
   let '(h, every, o) := c in
-  code (res_eqb bytes_eqb (Ok (if every then model_dump h else model_dump_last h)) o) (C02_ok h every o).
+  code (res_eqb bytes_eqb (Ok (model_dump_at every h)) o) (C02_ok h every o).
 
 (* A case is one Go program; it has one (history, every, dump) per table it
    builds.  With two tables that pass a *Row between them, each table's history
    holds the calls on that table, the Row.Add calls on the rows it can reach,
    and OtherAddRow where the other table's AddRow takes (or has held) a row. *)
-Definition C02_case (cs : list (list (op N) * bool * res (list N))) : N :=
+Definition C02_case (cs : list (list (op N) * sched * res (list N))) : N :=
   fold_left (fun acc c => N.lor acc (C02_case1 c)) cs 0%N.
 
 (* for replays: well-formedness of the history, its length, whether model and
@@ -36,8 +44,8 @@ Definition C02_case (cs : list (list (op N) * bool * res (list N))) : N :=
    case description) *)
 Definition hist_size (h : list (op N)) : nat :=
   fold_left (fun n o => match o with AddRowItems xs | AddHeaders xs => S (n + length xs) | _ => S n end) h 0.
-Definition C02_model1 (c : list (op N) * bool * res (list N)) :=
+Definition C02_model1 (c : list (op N) * sched * res (list N)) :=
   let h := fst (fst c) in
   (wf_histb h, hist_size h, bytes_eqb (model_dump_last h) (spec_dump_last h),
    if hist_size h <=? 40 then Some (observe (run h), expected (spec_run h)) else None).
-Definition C02_model (cs : list (list (op N) * bool * res (list N))) := map C02_model1 cs.
+Definition C02_model (cs : list (list (op N) * sched * res (list N))) := map C02_model1 cs.
